@@ -1899,6 +1899,15 @@ func (x *ctx) instantiateUniv(st *state, k term) {
 func (x *ctx) localByName(st *state, fr *frame, at *ssa.BasicBlock, name string) (val, bool) {
 	var best ssa.Value
 	var isAddr bool
+	// a variable captured by the closure being executed: its content in st (a debug reference to a value loaded earlier
+	// would be stale, and would not follow the state the clause level is evaluated in)
+	for _, fv := range fr.fn.FreeVars {
+		if fv.Name() == name {
+			if pv, bound := fr.regs[fv]; bound && pv.ptr != nil {
+				return x.load(st, pv, deref(fv.Type())), true
+			}
+		}
+	}
 	for _, blk := range fr.fn.Blocks {
 		for _, in := range blk.Instrs {
 			if d, ok := in.(*ssa.DebugRef); ok {
@@ -2560,27 +2569,37 @@ func (x *ctx) siteAssertionsAt(st *state, fr *frame, b *ssa.BasicBlock, name str
 		return
 	}
 	penv := func(n string, t types.Type) (val, bool) { v, ok := x.params[n]; return v, ok }
-	lenv := func(n string, t types.Type) (val, bool) {
-		if strings.HasPrefix(n, "arg") && len(x.siteArgs) > 0 {
-			if k, err := strconv.Atoi(n[3:]); err == nil && k < len(x.siteArgs) {
-				return x.siteArgs[k], true
+	// lenvIn: the locals as they are in state s (address-taken locals live in cells, whose content depends on the state:
+	// iter(size) must read the cell as it was when the iteration started)
+	lenvIn := func(s *state) envFn {
+		return func(n string, t types.Type) (val, bool) {
+			if strings.HasPrefix(n, "arg") && len(x.siteArgs) > 0 {
+				if k, err := strconv.Atoi(n[3:]); err == nil && k < len(x.siteArgs) {
+					return x.siteArgs[k], true
+				}
 			}
-		}
-		if v, ok := x.localByName(st, fr, b, n); ok {
-			return v, true
-		}
-		// enclosing frames (the call may sit in a closure of the verified function)
-		for i := len(x.frames) - 1; i >= 0; i-- {
-			of := x.frames[i]
-			if of.fn != x.fn && of.fn.Parent() == nil {
-				continue
-			}
-			if v, ok := x.localAnywhere(st, of, n); ok {
+			if v, ok := x.localByName(s, fr, b, n); ok {
 				return v, true
 			}
+			if fr.fn.Parent() != nil && declaresLocal(fr.fn, n) {
+				// a local of this closure that is not in scope here must not be taken for a local of the same name of an
+				// enclosing function
+				return val{}, false
+			}
+			// enclosing frames (the call may sit in a closure of the verified function)
+			for i := len(x.frames) - 1; i >= 0; i-- {
+				of := x.frames[i]
+				if of.fn != x.fn && of.fn.Parent() == nil {
+					continue
+				}
+				if v, ok := x.localAnywhere(s, of, n); ok {
+					return v, true
+				}
+			}
+			return penv(n, t)
 		}
-		return penv(n, t)
 	}
+	lenv := lenvIn(st)
 	for _, cl := range cls {
 		if qualifiedOnly {
 			// a return that precedes the declaration of a local the assertion mentions: nothing to assert there
@@ -2638,7 +2657,14 @@ func (x *ctx) siteAssertionsAt(st *state, fr *frame, b *ssa.BasicBlock, name str
 					sc.cells[id] = v
 				}
 			}
-			l1 = x.applyClosure(sc, l1, cl.P3, lenv)
+			if os.Getenv("GOVC_DEBUG") != "" {
+				for _, n := range cl.P3 {
+					a, _ := lenvIn(sc)(n, nil)
+					c2, _ := lenv(n, nil)
+					debugf("iter-level %s: snapshot=%s current=%s", n, a.t.s, c2.t.s)
+				}
+			}
+			l1 = x.applyClosure(sc, l1, cl.P3, lenvIn(sc))
 			for _, f := range sc.pc[n0:] {
 				if f.def {
 					st.define(f.t)
@@ -2654,6 +2680,20 @@ func (x *ctx) siteAssertionsAt(st *state, fr *frame, b *ssa.BasicBlock, name str
 		x.oblige(st, "site-requires", cl.Tag(), name, g.t.s, "")
 		st.assume(g.t.s)
 	}
+}
+
+// declaresLocal: fn has a local variable (not a field selector) of that name.
+func declaresLocal(fn *ssa.Function, name string) bool {
+	for _, blk := range fn.Blocks {
+		for _, in := range blk.Instrs {
+			if d, ok := in.(*ssa.DebugRef); ok && d.Object() != nil && d.Object().Name() == name {
+				if v, isVar := d.Object().(*types.Var); isVar && !v.IsField() && v.Parent() != nil && v.Pos() >= fn.Pos() {
+					return true
+				}
+			}
+		}
+	}
+	return false
 }
 
 // localAnywhere resolves a local of frame of by name using any bound debug reference (last one wins).
@@ -3321,7 +3361,20 @@ func (x *ctx) siteAssumes(st *state, fr *frame, b *ssa.BasicBlock, in *ssa.Call)
 	}
 	x.siteHit["assume:"+name] = true
 	penv := func(n string, t types.Type) (val, bool) { v, ok := x.params[n]; return v, ok }
+	// the operands of the call are available as arg0, arg1, ... (declared with `var argN T`), as for site assertions
+	var sargs []val
+	if c.IsInvoke() {
+		sargs = append(sargs, x.get(fr, st, c.Value))
+	}
+	for _, a := range c.Args {
+		sargs = append(sargs, x.get(fr, st, a))
+	}
 	lenv := func(n string, t types.Type) (val, bool) {
+		if strings.HasPrefix(n, "arg") {
+			if k, err := strconv.Atoi(n[3:]); err == nil && k < len(sargs) {
+				return sargs[k], true
+			}
+		}
 		if v, ok := x.localByName(st, fr, b, n); ok {
 			return v, true
 		}
@@ -3330,7 +3383,21 @@ func (x *ctx) siteAssumes(st *state, fr *frame, b *ssa.BasicBlock, in *ssa.Call)
 	for _, cl := range cls {
 		pc := x.pre.clone()
 		np := len(pc.pc)
+		saveOv := x.skolemOv
+		ov := map[string]val{}
+		for k, v := range saveOv {
+			ov[k] = v
+		}
+		for _, vd := range x.con.Vars {
+			if strings.HasPrefix(vd.Name, "arg") {
+				if k, err := strconv.Atoi(vd.Name[3:]); err == nil && k < len(sargs) {
+					ov[vd.Name] = sargs[k]
+				}
+			}
+		}
+		x.skolemOv = ov
 		l1 := x.clauseL1(pc, x.con, cl, penv)
+		x.skolemOv = saveOv
 		for id, v := range pc.cells {
 			if _, ok := st.cells[id]; !ok {
 				st.cells[id] = v
